@@ -97,7 +97,12 @@ func (r *MMapReader) SeekNext(offset uint64) (uint64, []byte, error) {
 				}
 			}
 			if ix-i < len(MagicNumberSeparatorLongBytes) {
-				i = ix + 1
+				// the byte that ended a partial match can itself be the start of the marker, it must be looked at again
+				if ix == i {
+					i = ix + 1
+				} else {
+					i = ix
+				}
 				continue
 			}
 
@@ -105,7 +110,10 @@ func (r *MMapReader) SeekNext(offset uint64) (uint64, []byte, error) {
 			trialOffset := uint64(next) + uint64(i)
 			record, err := r.ReadNextAt(trialOffset)
 			if err != nil {
-				if errors.Is(err, HeaderChecksumMismatchErr) || errors.Is(err, MagicNumberMismatchErr) || errors.Is(err, io.EOF) {
+				// marker bytes inside a payload look like a record start, such a trial read fails in one of these ways
+				// (the unexpected EOF happens when the alleged header or payload runs past the end of the file)
+				if errors.Is(err, HeaderChecksumMismatchErr) || errors.Is(err, MagicNumberMismatchErr) ||
+					errors.Is(err, io.EOF) || errors.Is(err, io.ErrUnexpectedEOF) {
 					// try to seek again, the record couldn't be read fully
 					i = ix
 					continue
